@@ -236,3 +236,115 @@ Proof.
       * intros (? & (req' & [= <-] & ?) & ?). split; [split|]; assumption.
     + split; [intros [[_ ?] _]; discriminate|]. intros (_ & (req' & ? & _) & _). discriminate.
 Qed.
+
+(** ** Exact amounts (a raise at any position) *)
+Fixpoint rexact (A : Z) (nf : RoutingFees) (hs : list phop) : Prop :=
+  match hs with
+  | nil => True
+  | h :: t =>
+      (exists req, compute_fees A nf = Some req /\ ph_fee h + A = Z.max (ph_hmin h) (A + req)) /\
+      rexact (ph_fee h + A) (ph_fees h) t
+  end.
+
+Lemma exact_policy_rev v hs h0 d :
+  exact_policy v (List.rev hs ++ h0 :: d) <->
+  rexact (first_amount (h0 :: d)) (ph_fees h0) hs /\ exact_policy v (h0 :: d).
+Proof.
+  revert h0 d. induction hs as [|h t IH]; intros h0 d.
+  - simpl. tauto.
+  - simpl List.rev. rewrite <-app_assoc. simpl app. rewrite IH.
+    change (exact_policy v (h :: h0 :: d)) with
+      ((exists req, compute_fees (first_amount (h0 :: d)) (ph_fees h0) = Some req /\
+          first_amount (h :: h0 :: d) = Z.max (ph_hmin h) (first_amount (h0 :: d) + req)) /\
+       exact_policy v (h0 :: d)).
+    change (first_amount (h :: h0 :: d)) with (ph_fee h + first_amount (h0 :: d)).
+    simpl rexact. tauto.
+Qed.
+
+Lemma rr_exact value rest total nu hs e A nf :
+  recompute_rev value rest false 0 total nu = Some (hs, e) ->
+  Forall fees_nonneg rest -> 0 <= A -> 0 <= nu ->
+  total + value = A + nu -> compute_fees A nf = Some nu ->
+  rexact A nf hs.
+Proof.
+  revert total nu hs e A nf. induction rest as [|h rest IH]; intros total nu hs e A nf; simpl.
+  - intros [= <- _] _ _ _ _ _. exact I.
+  - intros Hr Hnn HA Hnu Htot Hcf. inversion Hnn as [|? ? Hh Hrest]; subst.
+    destruct (chk_sub (ph_hmin h) (total + value)) as [ex|] eqn:Hex.
+    + apply chk_sub_Some in Hex as [-> Hle].
+      destruct rest as [|h2 rest'].
+      * injection Hr as <- _. simpl. split; [|exact I].
+        exists nu. split; [assumption|lia].
+      * destruct (compute_fees (total + value + (ph_hmin h - (total + value))) (ph_fees h)) as [nf'|] eqn:Hcf';
+          [|discriminate].
+        destruct (recompute_rev _ _ _ _ _ _) as [[hs' e']|] eqn:Hr'; [|discriminate].
+        injection Hr as <- _. simpl. split.
+        -- exists nu. split; [assumption|lia].
+        -- assert (0 <= nf') as Hnf'.
+           { destruct Hh. eapply compute_fees_nonneg; [| | |eassumption]; lia. }
+           eapply IH; [eassumption|assumption|lia|assumption|lia|].
+           replace (nu + (ph_hmin h - (total + value)) + A) with
+             (total + value + (ph_hmin h - (total + value))) by lia. assumption.
+    + apply chk_sub_None in Hex.
+      destruct rest as [|h2 rest'].
+      * injection Hr as <- _. simpl. split; [|exact I].
+        exists nu. split; [assumption|lia].
+      * destruct (compute_fees (total + value) (ph_fees h)) as [nf'|] eqn:Hcf'; [|discriminate].
+        destruct (recompute_rev _ _ _ _ _ _) as [[hs' e']|] eqn:Hr'; [|discriminate].
+        injection Hr as <- _. simpl. split.
+        -- exists nu. split; [assumption|lia].
+        -- assert (0 <= nf') as Hnf'.
+           { destruct Hh. eapply compute_fees_nonneg; [| | |eassumption]; lia. }
+           eapply IH; [eassumption|assumption|lia|assumption|lia|].
+           replace (nu + A) with (total + value) by lia. assumption.
+Qed.
+
+Theorem recompute_exact hops value hops' c :
+  recompute hops value = Some (hops', c) ->
+  Forall fees_nonneg hops -> 0 <= value -> last_hmin hops <= value ->
+  exact_policy value hops'.
+Proof.
+  unfold recompute, last_hmin. intros Hr Hnn Hv Hmin.
+  apply Forall_rev_fees in Hnn.
+  destruct (List.rev hops) as [|h rest] eqn:Hrev.
+  - simpl in Hr. injection Hr as <- <-. exact I.
+  - simpl in Hr. try rewrite Z.add_0_l in Hr. inversion Hnn as [|? ? Hh Hrest]; subst.
+    assert (match chk_sub (ph_hmin h) value with
+            | Some ex => (value + ex, ex, 0, 0)
+            | None => (value, 0, 0, 0)
+            end = (value, 0, 0, 0)) as Heq.
+    { destruct (chk_sub (ph_hmin h) value) as [ex|] eqn:Hex; [|reflexivity].
+      apply chk_sub_Some in Hex as [-> ?]. repeat f_equal; lia. }
+    rewrite Heq in Hr. clear Heq.
+    destruct rest as [|h2 rest'].
+    + injection Hr as <- <-. simpl. split; [reflexivity|exact I].
+    + destruct (compute_fees value (ph_fees h)) as [nf|] eqn:Hcf; [|discriminate].
+      destruct (recompute_rev value (h2 :: rest') false 0 (0 + nf) nf) as [[hs e]|] eqn:Hrr; [|discriminate].
+      injection Hr as <- <-.
+      assert (0 <= nf) as Hnf by (destruct Hh; eapply compute_fees_nonneg; [| | |eassumption]; lia).
+      pose proof (rr_exact value (h2 :: rest') (0 + nf) nf hs e value (ph_fees h) Hrr Hrest Hv Hnf
+                    ltac:(lia) Hcf) as Hp.
+      simpl List.rev.
+      apply (exact_policy_rev value hs (mkPhop (ph_fees h) (ph_hmin h) nf value) nil).
+      split.
+      * unfold first_amount. simpl. rewrite Z.add_0_r. exact Hp.
+      * simpl. split; [reflexivity|exact I].
+Qed.
+
+(** a raise in the MIDDLE of a five-hop path (hop 2 of 0..4: minimum 3 000 000 for a value of
+    1 000 000) with proportional fees before and after it: the raised hop carries exactly its
+    minimum and the hops before it are paid for the raised amount *)
+Definition midbump_hops : list phop :=
+  mkPhop (mkRoutingFees 0 0) 0 0 0 ::
+  mkPhop (mkRoutingFees 1000 10000) 0 0 0 ::
+  mkPhop (mkRoutingFees 0 20000) 3000000 0 0 ::
+  mkPhop (mkRoutingFees 500 5000) 0 0 0 ::
+  mkPhop (mkRoutingFees 0 1000) 1000 0 0 :: nil.
+
+Lemma midbump_example :
+  match recompute midbump_hops 1000000 with
+  | Some (hs, c) => (List.map ph_fee hs, amounts hs, pays_policy_b hs, c)
+  | None => (nil, nil, false, 0)
+  end = ((31600 :: 60000 :: 1999000 :: 1000 :: 1000000 :: nil)%list,
+         (3091600 :: 3060000 :: 3000000 :: 1001000 :: 1000000 :: nil)%list, true, 1000000).
+Proof. vm_compute. reflexivity. Qed.
